@@ -25,6 +25,8 @@ Lemma enum_ok_alg : forallb (enum_ok KAlgMn) (zrange 256 0) = true.
 Proof. vm_compute. reflexivity. Qed.
 Lemma enum_ok_algnum : forallb (enum_ok KAlgNum) (zrange 256 0) = true.
 Proof. vm_compute. reflexivity. Qed.
+Lemma enum_ok_rcode : forallb (enum_ok KRcode) (zrange 4096 0) = true.
+Proof. vm_compute. reflexivity. Qed.
 
 Theorem enum_facts k v : 0 <= v <= enum_max k ->
   exists w, enum_print k v = Ok w /\ w <> [] /\ forallb safe w = true /\ enum_parse k w = Ok v /\ enum_ctor k v = Ok v.
@@ -41,7 +43,9 @@ Proof.
     - pose proof enum_ok_alg as G. rewrite forallb_forall in G. apply G. apply zrange_in.
       assert (E : Z.of_nat 256 = 256) by (vm_compute; reflexivity). rewrite E. lia.
     - pose proof enum_ok_algnum as G. rewrite forallb_forall in G. apply G. apply zrange_in.
-      assert (E : Z.of_nat 256 = 256) by (vm_compute; reflexivity). rewrite E. lia. }
+      assert (E : Z.of_nat 256 = 256) by (vm_compute; reflexivity). rewrite E. lia.
+    - pose proof enum_ok_rcode as G. rewrite forallb_forall in G. apply G. apply zrange_in.
+      assert (E : Z.of_nat 4096 = 4096) by (vm_compute; reflexivity). rewrite E. lia. }
   unfold enum_ok in H. destruct (enum_print k v) as [w| |]; try discriminate. exists w.
   apply andb_true_iff in H as [H H3]. apply andb_true_iff in H as [H1 H2].
   destruct (enum_parse k w) as [v'| |]; try discriminate. apply Z.eqb_eq in H3. subst v'.
